@@ -28,6 +28,14 @@ def scoping_programs(tier, rnd):
         add("const-inner-%s" % k, prog(blk(k, [decl("B", num(2), const=True), ex(asg(B, num(3))), mark("dead")]) + [mark("dead2")]))
         for k2 in kinds:
             add("nested-%s-%s" % (k, k2), prog([decl("A", num(1))] + blk(k, [decl("A", num(2))] + blk(k2, [decl("A", num(3)), disp(A)]) + [disp(A)]) + [disp(A), ex(num(0))]))
+    # a method / type name defined twice in one text: a redeclaration, whichever definition comes first - nothing runs
+    F1, F2 = func("F", [], [ret(num(1))]), func("F", [], [ret(num(2))])
+    add("method-defined-twice", prog([mark("a"), disp(call("F")), mark("b")], funcs=[F1, F2]))
+    add("method-defined-twice-different-inputs", prog([mark("a"), disp(call("F", num(1))), mark("b")], funcs=[F1, func("F", ["X"], [ret(var("X"))])]))
+    add("method-defined-twice-with-others-between", prog([mark("a"), disp(call("G")), mark("b")], funcs=[F1, func("G", [], [ret(num(3))]), F2]))
+    add("method-defined-twice-never-called", prog([mark("a"), ex(num(0))], funcs=[F1, F2]))
+    add("type-defined-twice", prog([mark("a"), ex(num(0))], classes=[cls("K", [("p", num(1))]), cls("K", [("q", num(2))])]))
+    add("method-and-type-same-name", prog([mark("a"), ex(num(0))], funcs=[func("K", [], [ret(num(1))])], classes=[cls("K", [("p", num(1))])]))
     add("use-before-declare", prog([mark("a"), disp(A), decl("A", num(1))]))
     add("redeclare-same-block", prog([decl("A", num(1)), decl("A", num(2)), disp(A)]))
     add("redeclare-multi", prog([decl(["A", "B", "A"], num(1)), disp(A)]))
